@@ -249,7 +249,9 @@ func memOracle(c MemCase, o *h.Obs) *h.Fail {
 			return nil
 		}
 		switch r.st {
-		case cUnasserted:
+		case cUnasserted, cEither:
+			// (the statement's conversion clause speaks of parameters; a one-character string written
+			// to a byte field stays unjudged)
 			return nil
 		case cNone:
 			if err == nil {
